@@ -329,7 +329,7 @@ impl Check for C14 {
         "C14"
     }
     fn plan(&self, tier: Tier) -> Plan {
-        Plan { cases: if tier == Tier::Quick { 60_000 } else { 3_000_000 }, max_len: 4096 }
+        Plan { cases: if tier == Tier::Quick { 2_000_000 } else { 30_000_000 }, max_len: 4096 }
     }
     fn rule(&self) -> String {
         "choice sequence -> (ImageHeaderSpec over the whole conditional layout, FrameHeaderSpec over all legal field combinations for that image header, TOC sizes) written by the independent jxlref writer with *generated* U32 selectors / U64 forms / all_default shortcuts / div8+ratio size forms; parsed through the public Bundle::parse impls. Oracle: field-wise equality of every public field and Bitstream::num_read_bits == bits written, after each of the three structures. Non-trivial: image or frame header not all_default; distinct by FNV of the written bytes.".into()
